@@ -193,3 +193,35 @@ func (p *sxParser) item() (Sx, error) {
 	}
 	return A(p.s[st:p.pos]), nil
 }
+
+// SB encodes a byte string byte by byte (used where the model counts bytes, e.g. response bodies).
+func SB(b []byte) Sx {
+	var sb strings.Builder
+	sb.WriteByte('\'')
+	for i, c := range b {
+		if i > 0 {
+			sb.WriteByte('.')
+		}
+		sb.WriteString(strconv.FormatInt(int64(c), 16))
+	}
+	return A(sb.String())
+}
+
+// Bytes decodes an atom written by SB.
+func (x Sx) Bytes() []byte {
+	if x.IsL || len(x.Atom) == 0 || x.Atom[0] != '\'' {
+		panic(fmt.Sprintf("sx: byte string atom expected, got %s", x.String()))
+	}
+	if len(x.Atom) == 1 {
+		return []byte{}
+	}
+	var out []byte
+	for _, h := range strings.Split(x.Atom[1:], ".") {
+		v, err := strconv.ParseInt(h, 16, 64)
+		if err != nil || v > 255 {
+			panic("sx: bad byte string atom " + x.Atom)
+		}
+		out = append(out, byte(v))
+	}
+	return out
+}
